@@ -204,7 +204,7 @@ def coq_case(sc):
 
 PREAMBLE = "From H2V Require Import Base.Tac Base.Bytes Model.Counts Model.Store.\nLocal Open Scope N_scope.\n"
 
-PROFILES = ("mixed", "reset", "recv", "limits", "queue", "shutdown", "legal", "idle")
+PROFILES = ("mixed", "reset", "recv", "limits", "queue", "shutdown", "legal", "idle", "pushidle")
 
 
 def correspond_store(rep, tier, seed, profiles=PROFILES, extra=()):
@@ -501,8 +501,11 @@ def quiescence_oracle(sc):
             return None, known, "failed-during-teardown"      # a connection error: not the idle-close claim
         if final is None:
             sn = last.get("snap")
-            if sn and any(s["is_counted"] and not rec_closed(s) for s in sn["streams"]):
-                # a stream that still has frames to send (blocked by the peer's flow control) or to receive is not gone yet
+            if sn and any(s["is_counted"] and not rec_closed(s) and
+                          (s["ref_count"] > 0 or s["is_pending_send"] or s["is_pending_send_capacity"] or s["is_pending_open"]
+                           or s["pending_send_len"] > 0 or s["buffered_send_data"] > 0) for s in sn["streams"]):
+                # a stream that still has frames to send (blocked by the peer's flow control) is not gone yet; an open stream
+                # WITHOUT any handle and with nothing to send is not such a reason (dropping the last handle cancels a stream)
                 return None, known, "streams-still-active"
             return {"why": "all request handles and streams are gone but the client connection never completed", "result": final,
                     "goaways": goaways[-2:]}, known, "checked"
